@@ -75,16 +75,19 @@ public:
   {
     if(size > _capacity)
     {
+      byte* newBuffer = (byte*)new char[size + 1];
+      Memory::copy(newBuffer, data, size); // data may lie in the buffer that is released next
       delete[] (char*)buffer;
       _capacity = size;
-      buffer = (byte*)new char[size + 1];
+      buffer = newBuffer;
     }
     else if(!buffer)
     {
       bufferEnd = bufferStart;
       return;
     }
-    Memory::move(buffer, data, size); // data may lie in the buffer itself
+    else
+      Memory::move(buffer, data, size); // data may lie in the buffer itself
     bufferStart = buffer;
     bufferEnd = buffer + size;
     *bufferEnd = 0;
